@@ -30,7 +30,8 @@ impl<'a, 'graph> Builder<'a, 'graph> {
   pub fn load(&mut self, _o: LoadOptionsRef) { unimplemented!() }
 }
 impl From<JsrLoadError> for ModuleLoadError { fn from(e: JsrLoadError) -> Self { ModuleLoadError::Jsr(e) } }
-impl Url { pub fn join(&self, _p: &str) -> Result<Url, UrlParseError> { unimplemented!() } }
+impl Url { pub fn join(&self, _p: &str) -> Result<Url, UrlParseError> { unimplemented!() }
+  pub fn as_str(&self) -> &str { unimplemented!() } }
 
 verus! {
 pub struct LoaderChecksum(pub String);
@@ -95,6 +96,14 @@ pub assume_specification<'a, 'graph>[ Builder::<'a, 'graph>::load ](b: &mut Buil
             && ((*old(b).graph).module_slots@.contains_key(u) ==> (*final(b).graph).module_slots@[u] == (*old(b).graph).module_slots@[u]);
 #[verifier::external_body]
 pub fn vx_jsr_err_into(e: JsrLoadError) -> (r: ModuleLoadError) ensures r == ModuleLoadError::Jsr(e) { unimplemented!() }
+/// `url.as_str().starts_with(base.as_str())` (R7 chain wrapper): the url's text starts with the base's text
+pub uninterp spec fn url_inside(u: Url, base: Url) -> bool;
+#[verifier::external_body]
+pub fn vx_url_text_starts_with(u: &Url, base: &str) -> (r: bool)
+    ensures forall|b: Url| #[trigger] url_text(b) == base@ ==> r == url_inside(*u, b),
+{ unimplemented!() }
+pub uninterp spec fn url_text(u: Url) -> Seq<char>;
+pub assume_specification[ Url::as_str ](u: &Url) -> (s: &str) ensures s@ == url_text(*u);
 /// `base.join(path)`: deterministic (url crate)
 pub uninterp spec fn url_join(base: Url, p: Seq<char>) -> Option<Url>;
 pub assume_specification[ Url::join ](u: &Url, p: &str) -> (r: Result<Url, UrlParseError>)
